@@ -121,10 +121,23 @@ class G:
                 parts.append((x, ("N",) if x != " " else None))
         return parts
 
+    def argname(self):
+        """the name of a named argument: mostly a plain name, sometimes composed of text, macro
+        variable references and a macro call without parentheses (`pre&i`, `%r`, `a&b.%r`)"""
+        if self.chance(7, 10):
+            return self.T(self.name())
+        parts = self.T(self.name()) if self.chance(5, 10) else []
+        k = self.pick("mvar", "call", "both")
+        if k in ("mvar", "both"):
+            parts += self.mvar()
+        if k in ("call", "both"):
+            parts += self.T("%" + self.uname()) + [("", ("NOPAREN",))]
+        return parts
+
     def arg(self, d):
         parts = self.gap()
         if self.chance(4, 10):
-            parts += self.T(self.name()) + self.gap() + [("=", ("D", "ASSIGN"))] + self.gap()
+            parts += self.argname() + self.gap() + [("=", ("D", "ASSIGN"))] + self.gap()
         return parts + self.value(d)
 
     def call(self, d):
@@ -510,4 +523,24 @@ def deletions(parts):
             if tag[1] == "COMMA":
                 off = None  # the value argument extends to the next top-level delimiter: position not fixed by the grammar
             out.append((before + after[: m.end()] + nxt, off, tag[1], tag[2], len(before.encode("utf-8"))))
+    return out
+
+
+def eof_open_parens():
+    """C14, last clause: a ')' still open at end of input.  Heads that open a parenthesis of a macro
+    construct x tails that leave the lexer in every speculative or plain state the argument scanners have
+    (after a name part, after a macro call without arguments and its trailing gap, after a macro variable,
+    inside a nested call).  -> deletion-style items (text, offset, token type, error kind, min offset):
+    the missing-')' error and its zero-width token are expected at the end of the input."""
+    heads = ["%upcase(", "%UPCASE (", "%qupcase(", "%eval(", "%sysevalf(", "%str(", "%nrstr(", "%bquote(", "%superq(",
+             "%m(", "%mymac(", "%m(a,", "%m(k=", "%m(a, k=", "%do %while(", "%do %until (", "%if %eval(", "%let x=%upcase(",
+             "%put %lowcase(", "%upcase(%m(", "%m(%upcase(", "%sysfunc(f(", "%qsysfunc(cats(a,", "%length(", "%index(a,", "%substr(a,1,",
+             "%scan(a,", "%qscan(a,1,", "%unquote(", "%cmpres(", "%left(", "%trim(", "%verify(a,", "%kverify(a,", "%nrbquote(", "%quote("]
+    tails = ["a", "abc ", "%zz", "%zz ", "%zz /*c*/ ", "%zz\n", "&x", "&x.", "1", "1 + 2", "a b", "a%zz", "a &x", "'s'", "\"d\"", "a/*c*/",
+             "", " ", "ыы", "%zz%zz", "a=%zz", "%zz a"]
+    out = []
+    for h in heads:
+        for t in tails:
+            s = h + t
+            out.append((s, len(s.encode("utf-8")), "RPAREN", "MissingExpectedRParen", len(s.encode("utf-8"))))
     return out
